@@ -9,6 +9,7 @@
    Model: Model/Dist.v.  Lemmas: Proofs/IntP.v (on C01/C02/C03 lemmas). *)
 From Coq Require Import Reals List ZArith Bool.
 From Coquelicot Require Import Coquelicot.
+From FJ Require Proofs.LeafInvP Proofs.RqsInvP.
 From FJ Require Import Model.Num Model.Leaves Model.Dist Proofs.RNum Proofs.LeafDerivP Proofs.DistP Proofs.IntP.
 Import ListNotations.
 Open Scope R_scope.
@@ -81,6 +82,15 @@ Theorem C04_gumbel_flow_1d_integrates_to_one : forall b : bexpr R, onto1 b ->
   is_RInt_gen (fun x => exp (logp ROps (DTrans (DBase FGumbel) b) [x])) (Rbar_locally m_infty) (Rbar_locally p_infty) 1.
 Proof. exact gumbel_flow_1d_integrates_to_one. Qed.
 Print Assumptions C04_gumbel_flow_1d_integrates_to_one.
+
+(* the spline is a bijection of R onto R with identity tails and zero log-det there (its C1 closure lemma is NOT proved) *)
+Theorem C04_spline_onto_identity_tails_partial : forall (xp yp dv : list R) (lo hi : R), RqsInvP.rqs_valid xp yp dv lo hi ->
+  LeafInvP.bij_on LeafInvP.allR LeafInvP.allR (rqs_fwd ROps xp yp dv lo hi) (rqs_inv ROps xp yp dv lo hi) /\
+  (forall x, ~ (lo <= x <= hi) -> rqs_fwd ROps xp yp dv lo hi x = x /\ rqs_ld_fwd ROps xp yp dv lo hi x = 0) /\
+  filterlim (rqs_fwd ROps xp yp dv lo hi) (Rbar_locally m_infty) (Rbar_locally m_infty) /\
+  filterlim (rqs_fwd ROps xp yp dv lo hi) (Rbar_locally p_infty) (Rbar_locally p_infty).
+Proof. exact rqs_onto_identity_tails. Qed.
+Print Assumptions C04_spline_onto_identity_tails_partial.
 
 (* why a plain Tanh activation breaks the property: Tanh is not onto R *)
 Theorem C04_tanh_not_onto : ~ exists x, tanh_fwd ROps x = 1.
